@@ -766,6 +766,16 @@ func (be BlockExpr) Coq(needs_paren bool) string {
 	return addParens(needs_paren, pp.Build())
 }
 
+// ParenExpr is always printed in parentheses, so that bindings made inside X
+// are not visible to what follows it
+type ParenExpr struct {
+	X Expr
+}
+
+func (e ParenExpr) Coq(needs_paren bool) string {
+	return e.X.Coq(true)
+}
+
 type DerefExpr struct {
 	X  Expr
 	Ty Expr
